@@ -1,3 +1,78 @@
-From Ebml Require Import Base Tools Spec Reader.
-Example C06_ex : ebml_size 127 1 = SUnknown /\ ebml_size 127 2 = SKnown 127.
-Proof. vm_compute. split; reflexivity. Qed.
+(* C06 — strict mode emits only well-nested, hierarchy-valid sequences.  Statements only (proofs in Proofs/Nesting.v).
+
+   The judgement is the independent checker [chk sp open det items] of Proofs/Nesting.v over the sequence of successfully
+   emitted tags.  [open] is the chain of masters currently open (ids, innermost first), [det] says that an element with a
+   placeholder-free path has been seen.  The checker fails (None) on
+     - an End whose id is not the innermost open master (or with nothing open),
+     - a Start / element whose id the specification does not know,
+     - once [det] holds (it becomes true at the first element of known type whose declared path has no global
+       placeholder, that element included): a Start / element whose declared path does not match the open chain,
+     - a Full item (cannot occur when nothing is buffered);
+   a Start pushes its id, an End pops, and the result is the final (open, det).
+   "Strict": unknown ids and hierarchy errors are not tolerated and no master is buffered. *)
+From Ebml Require Import Base Tools Spec Reader Pure Proofs.Nesting.
+
+(* For every input and every sequence of next() / try_recover() / drain operations (so also for the items that follow errors
+   and recoveries), the emitted tags are accepted by the checker started with nothing determined and some base chain.  The
+   base is empty for a document read from its root; when reading starts inside a document it is the chain of implied
+   ancestors of the first placeholder-free element: every End closes the most recent unmatched Start or, when those are used
+   up, an implied ancestor, innermost first. *)
+Theorem C06_strict_items_well_nested : forall c input ops,
+  c_allow_id c = false -> c_allow_hier c = false -> c_buffered c = [] ->
+  exists base, chk (c_sp c) base false (out_tags (p_run c input ops)) <> None.
+Proof. exact strict_items_well_nested. Qed.
+
+(* With Ends emitted at the end of the input: when the complete run ends with None (no error, no cut), nothing is left open
+   after the last item: every opened master and every implied ancestor has received its End. *)
+Theorem C06_eof_closes_all : forall c input,
+  c_allow_id c = false -> c_allow_hier c = false -> c_buffered c = [] -> c_emit_eof c = true ->
+  forall outs, p_run c input [RAll] = outs ++ [ONone] ->
+  exists base det, chk (c_sp c) base false (out_tags outs) = Some ([], det).
+Proof. exact eof_closes_all. Qed.
+
+(* the checker is compositional: judging a sequence is judging a prefix and then the rest from the state reached; in
+   particular every prefix of an accepted sequence is accepted *)
+Theorem C06_chk_app : forall sp a b open det,
+  chk sp open det (a ++ b) = match chk sp open det a with Some (o, d) => chk sp o d b | None => None end.
+Proof. exact chk_app. Qed.
+
+(* Root(129) > Seg(130) > Val(16641); Void(236) may occur anywhere *)
+Example C06_ex_run :
+  let sp := [ {| e_id := 129; e_ty := DMaster; e_path := [] |}; {| e_id := 130; e_ty := DMaster; e_path := [PId 129] |};
+              {| e_id := 16641; e_ty := DUInt; e_path := [PId 129; PId 130] |};
+              {| e_id := 236; e_ty := DBinary; e_path := [PGlobal None None] |} ] in
+  let c := {| c_sp := sp; c_allow_id := false; c_allow_hier := false; c_allow_over := false; c_max := Some 4000000000;
+              c_buffered := []; c_emit_eof := true |} in
+  (* a whole document: Root { Seg { Val 5 } Seg { Val 6 } } *)
+  let doc := [129; 140; 130; 132; 65; 1; 129; 5; 130; 132; 65; 1; 129; 6] in
+  (* reading starts inside a Seg: Void, Val 5, (end of that Seg) Seg { Val 6 } *)
+  let mid := [236; 129; 0; 65; 1; 129; 5; 130; 132; 65; 1; 129; 6] in
+  (* Val directly inside Root: hierarchy error, failed recovery, drain *)
+  let bad := [129; 140; 130; 132; 65; 1; 129; 5; 65; 1; 129; 5; 130; 129; 0] in
+  p_run c doc [RAll] =
+    [OItem (TStart 129) 0; OItem (TStart 130) 2; OItem (TElem 16641 (VU 5)) 4; OItem (TEnd 130) 2;
+     OItem (TStart 130) 8; OItem (TElem 16641 (VU 6)) 10; OItem (TEnd 130) 8; OItem (TEnd 129) 0; ONone] /\
+  chk sp [] false (out_tags (p_run c doc [RAll])) = Some ([], true) /\
+  p_run c mid [RAll] =
+    [OItem (TElem 236 (VB [0])) 0; OItem (TElem 16641 (VU 5)) 3; OItem (TEnd 130) 0;
+     OItem (TStart 130) 7; OItem (TElem 16641 (VU 6)) 9; OItem (TEnd 130) 7; OItem (TEnd 129) 0; ONone] /\
+  chk sp [130; 129] false (out_tags (p_run c mid [RAll])) = Some ([], true) /\
+  chk sp [] false (out_tags (p_run c mid [RAll])) = None /\
+  p_run c bad [RAll; RRecover; RAll] =
+    [OItem (TStart 129) 0; OItem (TStart 130) 2; OItem (TElem 16641 (VU 5)) 4; OItem (TEnd 130) 2;
+     OErr (RHierarchy 16641 (Some 129)); ORecErr (REof 15 None None None); OItem (TEnd 129) 0; ONone] /\
+  chk sp [] false (out_tags (p_run c bad [RAll; RRecover; RAll])) = Some ([], true).
+Proof. vm_compute. repeat split; reflexivity. Qed.
+
+(* the checker is not permissive: a crossed End, an element under the wrong parent, an unknown id, an End with nothing open and
+   a missing End (something left open) are all told apart *)
+Example C06_ex_reject :
+  let sp := [ {| e_id := 129; e_ty := DMaster; e_path := [] |}; {| e_id := 130; e_ty := DMaster; e_path := [PId 129] |};
+              {| e_id := 16641; e_ty := DUInt; e_path := [PId 129; PId 130] |} ] in
+  chk sp [] false [TStart 129; TStart 130; TEnd 129; TEnd 130] = None /\
+  chk sp [] false [TStart 129; TElem 16641 (VU 5); TEnd 129] = None /\
+  chk sp [] false [TStart 129; TElem 153 (VRaw [7]); TEnd 129] = None /\
+  chk sp [] false [TStart 129; TEnd 129; TEnd 129] = None /\
+  chk sp [] false [TStart 129; TStart 130; TElem 16641 (VU 5); TEnd 130] = Some ([129], true) /\
+  chk sp [] false [TStart 129; TStart 130; TElem 16641 (VU 5); TEnd 130; TEnd 129] = Some ([], true).
+Proof. vm_compute. repeat split; reflexivity. Qed.
